@@ -30,6 +30,11 @@ CHECKS["C05"] = dict(cat=MC, engine="E2 xseq (bounded-exhaustive input enumerati
    text="Every (id,total,seq) fragment header, all 2-(thorough 3-)datagram sequences over a 98-header alphabet, a structured RPFM header/attribute grid through the stream reader / from_buffer / fragment layer with every truncation, the SOCKS-UDP header grid, all byte strings up to length 5 (thorough 6) over 12-symbol alphabets for the HTTP and SOCKS decoders, every single-byte substitution/deletion of every valid message, 25 request heads through the real h11c_handshake and 22 upstream replies x feature x channel through the real h11c_connect.",
    note="A caught panic stands for a process abort (panic='abort'). Trusts the harness profile (overflow checks on). Not covered here: process-level liveness (accept loop after EMFILE, stalls), TPROXY, memory exhaustion.",
    ref="DESIGN.md §3 C05")
+CHECKS["C03"] = dict(cat=MC, engine="E2 xseq (bounded-exhaustive destination grid through the real codecs)",
+   technique="exhaustive destination grid (host length x hostile byte x position, IPs, ports) through every real inbound decoder and outbound encoder; outputs parsed by an independent strict reference decoder and by the repo's own decoder",
+   text="Every destination of the grid is expressed in each of 6 inbound protocols and decoded by the real decoder (what the rules see must be what the client asked, remaining bytes must be exactly the payload); every TargetAddress reachable that way goes through each of 5 real outbound encoders; the emitted bytes must be refused, or parse - by a strict reference decoder and by the repository's own decoder - to exactly the same destination with nothing spilled. Pairs are covered by composition through the TargetAddress value.",
+   note="Trusts: the reference decoders (RFC 1928 / SOCKS4a layout, HTTP request-line grammar, RPFM layout from frames.rs); IP-literal host strings compare as addresses. Not covered: DNS resolution, hosts longer than 1000 bytes.",
+   ref="DESIGN.md §3 C03")
 NOT_YET = "check not built yet in this revision (see DESIGN.md §3 for the planned model-checking design)"
 def main():
     checks = []
